@@ -12,7 +12,7 @@ import ast
 
 from ..cfg import known_falsy
 from ..model import self_attr, unparse, walk_body_shallow
-from .util import (aliases_of, call_name, call_recv, calls_in, chains_in, handler_exits, kwarg, names_in, need,
+from .util import (result_stored, aliases_of, call_name, call_recv, calls_in, chains_in, handler_exits, kwarg, names_in, need,
                    node_assign_value, norm, registrations, where)
 
 TECHNIQUE = "single-writer + success-only registration, failure distinguishability on CFG paths, snapshot def-use, " \
@@ -202,7 +202,7 @@ def run(ctx):
     fsr = ctx.facts(scr)
     for n in cs.nodes:
         if any(call_name(c) == "send_offset_commit_request" for c in n.calls()):
-            v = node_assign_value(n, "_commit_req")
+            v = result_stored(cs, n, [c for c in n.calls() if call_name(c) == "send_offset_commit_request"][0], "_commit_req") or None
             r.check(v is not None and known_falsy(fsr[n.id], "self._commit_req"), "%s#send-guard" % scr.qname,
                     "commit sent without `_commit_req` being None (or not stored in it)", where(scr, n.stmt),
                     "two commit requests in flight; the older acknowledgement can overwrite the newer value")
